@@ -120,36 +120,83 @@ def check_tree(ctx, u, lab, m):
         co = [x for x in walk(body_of(f)) if x.get('kind') == 'ConditionalOperator']
         ok = len(co) == 1 and nf(co[0]['inner'][0]) == '(pt.at(n.dim) < n.pt.at(n.dim))' and canon(co[0]['inner'][1]) == 'n.before' and canon(co[0]['inner'][2]) == 'n.after_or_equal'
         ctx.check(ok, R, '%s|%s|descent' % (lab, nm), co[0] if co else f, 'pt < node (strict) -> before, else after_or_equal', '%s descends with `%s`: it disagrees with where link_node put the entry' % (nm, nf(co[0]) if co else None))
+    from guard import subst_locals as _sl
+
+    def child_pushes(fn_):
+        out = []
+        for c_ in walk(body_of(fn_)):
+            if c_.get('kind') == 'CXXMemberCallExpr' and call_name(c_) in ('emplace_back', 'push_back', 'push', 'emplace', 'push_front') and call_args(c_):
+                a0 = strip(call_args(c_)[0])
+                while a0 is not None and a0.get('kind') in ('ImplicitCastExpr', 'ParenExpr') and kids(a0):
+                    a0 = strip(kids(a0)[0])
+                if a0 is not None and a0.get('kind') == 'MemberExpr' and a0.get('name') in ('before', 'after_or_equal') and kids(a0):
+                    out.append((c_, a0.get('name'), canon(kids(a0)[0])))
+        return out
     for nm in ('within', 'exists'):
         f = one(m, nm, 2)
         ctx.fn('%s::%s(low, high)' % (lab, nm))
-        defs = {v.get('name'): nf(kids(v)[-1]) for v in walk(body_of(f)) if v.get('kind') == 'VarDecl' and kids(v) and dtype(v) == 'bool'}
-        lo = defs.get('low_less')
-        hi = defs.get('high_greater')
-        if lo is None and hi is None:
+        pushes = child_pushes(f)
+        if not pushes:
             # the traversal lives elsewhere (a shared visitor): analyse the function that holds it
             g = None
             for c_ in walk(body_of(f)):
                 if c_.get('kind') in ('CallExpr', 'CXXMemberCallExpr'):
                     d_ = callee_decl(c_, u)
-                    if d_ is not None and body_of(d_) is not None and any(v.get('kind') == 'VarDecl' and v.get('name') in ('low_less', 'high_greater') for v in walk(body_of(d_))):
+                    if d_ is not None and body_of(d_) is not None and child_pushes(d_):
                         g = d_
             if g is None:
-                ctx.undecided(R, '%s|%s|visit' % (lab, nm), f, 'the range traversal of %s (low_less / high_greater pruning) was not found in the function or a direct callee' % nm)
+                ctx.undecided(R, '%s|%s|visit' % (lab, nm), f, 'the range traversal of %s (enqueueing of the before / after_or_equal children) was not found in the function or a direct callee' % nm)
                 continue
             f = g
-            defs = {v.get('name'): nf(kids(v)[-1]) for v in walk(body_of(f)) if v.get('kind') == 'VarDecl' and kids(v) and dtype(v) == 'bool'}
-            lo, hi = defs.get('low_less'), defs.get('high_greater')
-        ctx.check(lo in ('(low.at(n.dim) < n.pt.at(n.dim))', '(low.at(n.dim) <= n.pt.at(n.dim))'), R, '%s|%s|visit-before' % (lab, nm), f, 'before visited iff low < node', 'the `before` subtree is visited under `%s`: entries smaller than the node inside the box can be skipped' % lo)
-        ctx.check(hi in ('(n.pt.at(n.dim) <= high.at(n.dim))', '(n.pt.at(n.dim) < high.at(n.dim))'), R, '%s|%s|visit-after' % (lab, nm), f, 'after_or_equal visited iff high >= node', 'the `after_or_equal` subtree is visited under `%s`: entries >= the node inside the box can be skipped' % hi)
-        pushes = sorted((nf(if_parts(x)[0]), nf(stmts_of(if_parts(x)[1])[0])) for x in walk(body_of(f)) if x.get('kind') == 'IfStmt' and any(call_name(c) == 'emplace_back' and canon(member_call_object(c)) == 'level_nodes' for c in walk(if_parts(x)[1]) if c.get('kind') == 'CXXMemberCallExpr'))
-        ctx.check(pushes == [('(high_greater && n.after_or_equal)', 'level_nodes.emplace_back(n.after_or_equal)'), ('(low_less && n.before)', 'level_nodes.emplace_back(n.before)')], R, '%s|%s|children' % (lab, nm), f, 'children enqueued under their own predicate', 'child enqueue conditions are %s' % pushes)
-        box = [x for x in walk(body_of(f)) if x.get('kind') == 'IfStmt' and any(y.get('kind') == 'BreakStmt' for y in walk(if_parts(x)[1]))]
-        okb = len(box) == 1 and nf(if_parts(box[0])[0]) == '((n.pt.at(dim) < low.at(dim)) || (high.at(dim) <= n.pt.at(dim)))'
-        if not box:
+            pushes = child_pushes(f)
+        ps_ = [p_.get('name') for p_ in params_of(f)]
+        lowp, highp = (ps_ + ['low', 'high'])[:2] if len(ps_) >= 2 else ('low', 'high')
+
+        def rels_at(site, negate_cond=None):
+            out = set()
+            facts = atoms(path_facts(site)) if negate_cond is None else atoms([Fact(negate_cond, False, site)])
+            for n_, pol in facts:
+                r_ = relation(n_, pol)
+                if r_:
+                    a_, o_, b_ = _sl(nf(r_[0]), site), r_[1], _sl(nf(r_[2]), site)
+                    if ('%s.at(' % lowp in a_ or '%s.at(' % highp in a_) and not ('%s.at(' % lowp in b_ or '%s.at(' % highp in b_):
+                        a_, o_, b_ = b_, FLIP[o_], a_
+                    out.add((a_, o_, b_))
+                else:
+                    out.add((_sl(nf(n_), site), 'truth', pol))
+            return out
+        by_kind = {}
+        for c_, kind_, node_ in pushes:
+            by_kind.setdefault(kind_, []).append((c_, node_))
+        okc = set(by_kind) == {'before', 'after_or_equal'} and all(len(v_) == 1 for v_ in by_kind.values())
+        for kind_, want_ops, lab_k, bound in (('before', ('>', '>='), 'visit-before', lowp), ('after_or_equal', ('<=', '<'), 'visit-after', highp)):
+            if kind_ not in by_kind:
+                ctx.bad(R, '%s|%s|%s' % (lab, nm, lab_k), f, 'the `%s` child is never enqueued by the range traversal' % kind_)
+                continue
+            c_, node_ = by_kind[kind_][0]
+            rs_ = rels_at(c_)
+            split_ = '%s.pt.at(%s.dim)' % (node_, node_)
+            found = [(a_, o_, b_) for a_, o_, b_ in rs_ if a_ == split_ and b_ == '%s.at(%s.dim)' % (bound, node_) and o_ != 'truth']
+            ok_ = len(found) == 1 and found[0][1] in want_ops
+            if kind_ == 'before':
+                ctx.check(ok_, R, '%s|%s|%s' % (lab, nm, lab_k), c_, 'before visited iff low < node', 'the `before` subtree is visited under %s: entries smaller than the node inside the box can be skipped' % (sorted('%s %s %s' % r_ for r_ in rs_ if r_[1] != 'truth') or 'no comparison with the lower corner'))
+            else:
+                ctx.check(ok_, R, '%s|%s|%s' % (lab, nm, lab_k), c_, 'after_or_equal visited iff high >= node', 'the `after_or_equal` subtree is visited under %s: entries >= the node inside the box can be skipped' % (sorted('%s %s %s' % r_ for r_ in rs_ if r_[1] != 'truth') or 'no comparison with the upper corner'))
+            # the child is enqueued under its own predicate only (plus its non-null test)
+            other = '%s.at(%s.dim)' % (highp if kind_ == 'before' else lowp, node_)
+            okc = okc and not any(b_ == other for a_, o_, b_ in rs_ if o_ != 'truth')
+        ctx.check(okc, R, '%s|%s|children' % (lab, nm), f, 'children enqueued under their own predicate', 'child enqueue sites / conditions changed: %s' % sorted((k_, len(v_)) for k_, v_ in by_kind.items()))
+        node_ = pushes[0][2]
+        box = [x for x in walk(body_of(f)) if x.get('kind') == 'IfStmt' and any(y.get('kind') == 'BreakStmt' for y in walk(if_parts(x)[1])) and enclosing(x, LOOPS) is not None and
+               any(('%s.at(' % lowp) in nf(y) or ('%s.at(' % highp) in nf(y) for y in [if_parts(x)[0]])]
+        if len(box) != 1:
             ctx.undecided(R, '%s|%s|half-open-box' % (lab, nm), f, 'the box membership test is not an `if (...) break` over the dimensions in this function (moved to a helper)')
         else:
-          ctx.check(okb, R, '%s|%s|half-open-box' % (lab, nm), box[0] if box else f, 'inside iff low <= p < high in every dimension', 'box membership test is `%s`' % (nf(if_parts(box[0])[0]) if box else None))
+            inside = {r_ for r_ in rels_at(box[0], negate_cond=if_parts(box[0])[0]) if r_[1] != 'truth'}
+            dims_ = {mm.group(1) for a_, o_, b_ in inside for mm in [re.match(r'^%s\.pt\.at\((\w+)\)$' % re.escape(node_), a_)] if mm}
+            d_ = next(iter(dims_)) if len(dims_) == 1 else '?'
+            want_in = {('%s.pt.at(%s)' % (node_, d_), '>=', '%s.at(%s)' % (lowp, d_)), ('%s.pt.at(%s)' % (node_, d_), '<', '%s.at(%s)' % (highp, d_))}
+            ctx.check(inside == want_in, R, '%s|%s|half-open-box' % (lab, nm), box[0], 'inside iff low <= p < high in every dimension', 'a point passes the box test iff %s; the box is half-open: low <= p < high' % sorted('%s %s %s' % r_ for r_ in inside))
 
     # ---------------- R2
     R = 'C13-R2'
